@@ -207,6 +207,99 @@ fn run_case<G: AffineRepr>(env: &Env<G>, c: &Case) -> CaseOut {
                         }
                     }
                 }
+                // adaptive combinations across the fixed fields: with ALL challenges observed on the
+                // original proof (incl. the combining scalar `r`, squeezed from a clone), several fields
+                // are shifted so that the combined check is unchanged *if the challenges stay the same*.
+                // Every one of these fields is absorbed before a challenge that weights it, so each
+                // family must be rejected.
+                {
+                    use ark_ec::CurveGroup;
+                    use ark_ff::{Field, UniformRand};
+                    use rand_core::SeedableRng;
+                    let vo0 = crate::interp::cur::verify_program::<G>(&prog, &po.vs, proof, &env.pc, &env.bp);
+                    let (chals, _) = chals_of::<G>(&vo0.log, vo0.st.model.chals.len());
+                    let r_bytes: Option<[u8; 32]> = vo0.log.iter().rev().find_map(|e| match e {
+                        crate::mon::Event::Challenge { label, out, .. } if *label == b"r" && out.len() == 32 => {
+                            let mut b = [0u8; 32];
+                            b.copy_from_slice(out);
+                            Some(b)
+                        }
+                        _ => None,
+                    });
+                    if let (Some(ch), Some(rb)) = (chals, r_bytes) {
+                        let r = F::<G>::rand(&mut rand_chacha::ChaChaRng::from_seed(rb));
+                        let (x, u, w) = (ch.x, ch.u, ch.w);
+                        let xi = x.inverse().unwrap();
+                        let bb = env.pc.B;
+                        let bl = env.pc.B_blinding;
+                        let mut fams: Vec<(String, Mirror<G>)> = vec![];
+                        for d in [F::<G>::from(1u64), -F::<G>::from(1u64), F::<G>::from(0x1234_5678_9abcu64)] {
+                            // B_blinding coefficient: -(e_blinding + r t_x_blinding)
+                            let mut m = hm.clone();
+                            m.t_x_blinding += d;
+                            m.e_blinding -= r * d;
+                            fams.push(("adaptive(t_x_blinding,e_blinding)".into(), m));
+                            // B coefficient: (w - r) t_x + ..., T_1 carries r x
+                            if let Some(rxi) = (r * x).inverse() {
+                                let mut m = hm.clone();
+                                m.t_x += d;
+                                m.T_1 = (m.T_1.into_group() - crate::refv::smul(&bb, (w - r) * d * rxi)).into_affine();
+                                fams.push(("adaptive(t_x,T_1)".into(), m));
+                            }
+                            // A_I1 carries x: a B_blinding component moves into e_blinding
+                            let mut m = hm.clone();
+                            m.A_I1 = (m.A_I1.into_group() + crate::refv::smul(&bl, d)).into_affine();
+                            m.e_blinding += x * d;
+                            fams.push(("adaptive(A_I1,e_blinding)".into(), m));
+                            // neighbouring powers of x (and of r x^k) trade against each other
+                            let mut m = hm.clone();
+                            m.A_I1 = (m.A_I1.into_group() + crate::refv::smul(&bb, x * d)).into_affine();
+                            m.A_O1 = (m.A_O1.into_group() - crate::refv::smul(&bb, d)).into_affine();
+                            fams.push(("adaptive(A_I1,A_O1)".into(), m));
+                            let mut m = hm.clone();
+                            m.A_O1 = (m.A_O1.into_group() + crate::refv::smul(&bb, x * d)).into_affine();
+                            m.S1 = (m.S1.into_group() - crate::refv::smul(&bb, d)).into_affine();
+                            fams.push(("adaptive(A_O1,S1)".into(), m));
+                            let mut m = hm.clone();
+                            m.A_I2 = (m.A_I2.into_group() + crate::refv::smul(&bb, x * d)).into_affine();
+                            m.A_O2 = (m.A_O2.into_group() - crate::refv::smul(&bb, d)).into_affine();
+                            fams.push(("adaptive(A_I2,A_O2)".into(), m));
+                            let mut m = hm.clone();
+                            m.A_O2 = (m.A_O2.into_group() + crate::refv::smul(&bb, x * d)).into_affine();
+                            m.S2 = (m.S2.into_group() - crate::refv::smul(&bb, d)).into_affine();
+                            fams.push(("adaptive(A_O2,S2)".into(), m));
+                            // first-phase against second-phase commitments (weights x^k and u x^k)
+                            let mut m = hm.clone();
+                            m.A_I1 = (m.A_I1.into_group() + crate::refv::smul(&bb, u * d)).into_affine();
+                            m.A_I2 = (m.A_I2.into_group() - crate::refv::smul(&bb, d)).into_affine();
+                            fams.push(("adaptive(A_I1,A_I2)".into(), m));
+                            let mut m = hm.clone();
+                            m.T_1 = (m.T_1.into_group() + crate::refv::smul(&bb, x * x * d)).into_affine();
+                            m.T_3 = (m.T_3.into_group() - crate::refv::smul(&bb, d)).into_affine();
+                            fams.push(("adaptive(T_1,T_3)".into(), m));
+                            for (i, nm) in [(7usize, "adaptive(T_3,T_4)"), (8, "adaptive(T_4,T_5)"), (9, "adaptive(T_5,T_6)")] {
+                                let mut m = hm.clone();
+                                let (p0, p1) = (hm.point(i), hm.point(i + 1));
+                                *m.point_mut(i) = (p0.into_group() + crate::refv::smul(&bb, x * d)).into_affine();
+                                *m.point_mut(i + 1) = (p1.into_group() - crate::refv::smul(&bb, d)).into_affine();
+                                fams.push((nm.into(), m));
+                            }
+                            // S1 (x^3) against T_1 (r x): S1 += r d B, T_1 -= x^2 d B
+                            let mut m = hm.clone();
+                            m.S1 = (m.S1.into_group() + crate::refv::smul(&bb, r * d)).into_affine();
+                            m.T_1 = (m.T_1.into_group() - crate::refv::smul(&bb, x * x * d)).into_affine();
+                            fams.push(("adaptive(S1,T_1)".into(), m));
+                            let _ = xi;
+                        }
+                        for (nm, m) in fams {
+                            let b = m.to_bytes();
+                            o.sig(format!("{}|k={}|p{}|{}", env.curve, k, if c.n2 > 0 { 2 } else { 1 }, nm));
+                            judge_bytes::<G>(env, &mut o, &prog, &po.vs, &orig, &b, &|| nm.clone(), "adaptive-family");
+                        }
+                    } else {
+                        o.count("adaptive families: challenges not observable", 1);
+                    }
+                }
                 // opposite offsets of one scalar in two copies (their residuals are exactly opposite
                 // for the scalars the transcript does not absorb): the batch must still reject
                 for i in 0..5usize {
